@@ -214,7 +214,7 @@ class Ctx:
             if m:
                 res["violated"] = m.group(1) or "temporal"
         res["deadlock"] = "Deadlock reached" in out
-        res["postcondition_failed"] = "PostCondition" in out and "violated" in out or "Evaluating the post condition" in out and "FALSE" in out
+        res["postcondition_failed"] = bool(re.search(r"Postcondition \S+ .* is false", out))
         res["finished"] = "Model checking completed. No error has been found." in out or "Finished in" in out and r.returncode == 0
         res["error"] = None
         if r.returncode != 0 and not res["violated"] and not res["deadlock"] and not res["postcondition_failed"]:
